@@ -322,6 +322,22 @@ class World:
         self._files[(h, target)] = r = self._file_for(h, target)
         return r
 
+    def file_elsewhere(self, h, target):
+        """a regular file below the target history that lies outside the directory of history h (None if there is none)"""
+        if ("else", h, target) in self._files:
+            return self._files[("else", h, target)]
+        vis = W.visible_tree(self.root, W.DEFAULT_IGNORE)
+        c = sorted(
+            e
+            for e, k in vis.items()
+            if k == "f"
+            and not os.path.islink(os.path.join(self.root, e))
+            and (target == "" or e.startswith(target + os.sep))
+            and not (h == "" or e.startswith(h + os.sep))
+        )
+        self._files[("else", h, target)] = r = os.path.join(self.root, c[-1]) if c else None
+        return r
+
     def _file_for(self, h, target):
         roots = [r for r in self.histories() if r]
         if h and h not in roots:
@@ -369,7 +385,9 @@ MODIFY = [
     "crlf",
     "swap",
     "xmldecl-space",
+    "other-generation",
     "other-manifest",
+    "exchange-generations",
     "symlink-to-edited",
     "attr-quote",
 ]
@@ -441,11 +459,11 @@ def edited(kind, data, rnd, others):
         q = data.find(b'"', p + 2)
         seg = data[p + 2 : q]
         return data[: p + 1] + b"'" + seg + b"'" + data[q + 1 :] if q > 0 and b"'" not in seg else None
-    if kind == "other-manifest":
+    if kind in ("other-manifest", "other-generation"):  # a complete, valid manifest, but not the one that was chained
         for o in others:
             if o != data:
                 return o
-        return data + b"<!-- -->"
+        return None
     raise ValueError(kind)
 
 
@@ -555,7 +573,29 @@ class Fault:
             self.expected = {31, 33}
             self.descr = f"manifest {rel} bit flipped and {os.path.basename(hm[-1][2])} removed"
             return True
-        others = [w.written[v[2]] for v in self.victims if v[3] == "manifest" and v[2] != path]
+        if self.edit == "exchange-generations":  # two chained manifests of one history trade places
+            hm = [v for v in self.victims if v[0] == h and v[3] == "manifest"]
+            i = [v[2] for v in hm].index(path)
+            if len(hm) < 2:
+                return False
+            other = hm[(i + 1) % len(hm)][2]
+            with open(other, "rb") as f:
+                odata = f.read()
+            if odata == data:
+                return False
+            self.touch(path)
+            self.touch(other)
+            with open(path, "wb") as f:
+                f.write(odata)
+            with open(other, "wb") as f:
+                f.write(data)
+            self.expected = {31}
+            self.descr = f"manifests {rel} and {os.path.basename(other)} exchanged their content (c4 {W.c4_of_bytes(data)[:12]}.. <-> {W.c4_of_bytes(odata)[:12]}..)"
+            return True
+        if self.edit == "other-generation":
+            others = [w.written[v[2]] for v in self.victims if v[3] == "manifest" and v[2] != path and v[0] == h]
+        else:
+            others = [w.written[v[2]] for v in self.victims if v[3] == "manifest" and v[2] != path and v[0] != h]
         rnd.shuffle(others)
         new = edited("flip-rnd" if self.edit == "symlink-to-edited" else self.edit, data, rnd, others)
         if new is None or new == data or new == w.written.get(path):
@@ -596,6 +636,12 @@ def command_table():
     t["create-sf"] = ("create-sf", lambda c: ("create", [c["arg"], "-sf", c["F"]]) if c["F"] else None)
     t["create-sf-twice"] = ("create-sf", lambda c: ("create", [c["arg"], "-h", "xxh64", "-sf", c["F"], "-sf", c["F"]]) if c["F"] else None)
     t["create-sf-dir"] = ("create-sf", lambda c: ("create", [c["arg"], "-sf", c["Fdir"], "-i", "*.tmp"]) if c["Fdir"] else None)
+    # the option names a file of another history than the one with the fault; the folder with the fault is ignored
+    t["create-sf-elsewhere"] = ("create-sf", lambda c: ("create", [c["arg"], "-sf", c["G"]]) if c["G"] else None)
+    t["create-i-victimdir"] = ("create", lambda c: ("create", [c["arg"], "-i", c["top"]]) if c["top"] else None)
+    t["verify-sf-elsewhere"] = ("verify", lambda c: ("verify", [c["arg"], "-sf", c["Gv"]]) if c["Gv"] else None)
+    t["verify-i-victimdir"] = ("verify", lambda c: ("verify", [c["arg"], "-i", c["top"] + "/"]) if c["top"] else None)
+    t["info-sf-elsewhere"] = ("info", lambda c: ("info", [c["arg"], "-sf", c["G"]]) if c["G"] else None)
     t["verify"] = ("verify", lambda c: ("verify", [c["arg"]]))
     t["verify-v-i"] = ("verify", lambda c: ("verify", ["-v", c["arg"], "-i", "*.txt"]))
     t["verify-sf"] = ("verify", lambda c: ("verify", [c["arg"], "-sf", c["Fv"]]) if c["Fv"] else None)
@@ -631,11 +677,17 @@ def context(world, h, target, spell):
     elif spell == "unnorm":
         arg = os.path.join(os.path.dirname(T), ".", os.path.basename(T)) + os.sep + "."
     F, own = world.file_for(h, target)
-    c = {"arg": arg, "cwd": cwd, "F": F, "Fv": F, "Fdir": os.path.dirname(F) if F else None, "own": own and target == h}
+    G = world.file_elsewhere(h, target)  # a file below the target that the victim's history does not own
+    c = {"arg": arg, "cwd": cwd, "F": F, "Fv": F, "Fdir": os.path.dirname(F) if F else None, "own": own and target == h, "G": G, "Gv": G}
+    relh = h if target == "" else (os.path.relpath(h, target) if h != target else "")
+    c["top"] = relh.split(os.sep)[0] if relh else None  # first folder on the way from the target to the victim's history
     if F and cwd:  # option paths relative to the cwd (create, info) / to the root (verify)
         c["F"] = os.path.relpath(F, cwd)
         c["Fdir"] = os.path.relpath(os.path.dirname(F), cwd)
         c["Fv"] = os.path.relpath(F, T)
+    if G and cwd:
+        c["G"] = os.path.relpath(G, cwd)
+        c["Gv"] = os.path.relpath(G, T)
     c["out"] = world.out if not cwd else os.path.relpath(world.out, cwd)
     c["newout"] = os.path.join(world.base, "newout")
     c["ign"] = world.ign if spell != "rel" else os.path.relpath(world.ign, cwd)
@@ -714,11 +766,11 @@ def main():
         "history, mixed format sets, -n / -sf / failed / reference-only generations, ignore patterns via -i and -ii incl. negation, "
         "three POSIX TZ zones with mtimes around a DST switch, symlinks, unsealed outer root, unreferenced nested history, manifest "
         "> 1 MiB, create killed before its k-th writing operation k in {2,4,7} quick / 1..9 thorough, with and without a further "
-        "create); every chained manifest and chain file is a victim; 20 modifying edits (+4 around offset 1 MiB) + 3 ways of removal + "
-        "combined fault per manifest, 2 removals + emptied folder per chain, chain-less ascmhl folder in a fresh directory; 27 command "
+        "create); every chained manifest and chain file is a victim; 22 modifying edits (+4 around offset 1 MiB) + 3 ways of removal + "
+        "combined fault per manifest, 2 removals + emptied folder per chain, chain-less ascmhl folder in a fresh directory; 32 command "
         "variants of the 7 commands, pointed at every enclosing history, root spelled 5 ways; quick: per victim 6 rotating edits "
-        "(always removal and an mtime/size-preserving flip) x 1 rotating variant + the 7 core commands on one rotating edit, all "
-        "edits x 7 core commands on 2 victims; thorough: all edits x 2 rotating variants + all 27 variants on 2 edits per victim, "
+        "(always removal and an mtime/size-preserving flip) x 2 rotating variants + the 7 core commands on one rotating edit, all "
+        "edits x 7 core commands on 2 victims; thorough: all edits x 3 rotating variants + all 32 variants on 2 edits per victim, "
         "and every byte position (one bit each) of two manifests",
     )
     table = command_table()
@@ -769,11 +821,11 @@ def main():
                 if edit.startswith("flip@"):
                     chosen = [CORE[(k + int(edit[5:].split(".")[0])) % len(CORE)]]
                 elif thorough:
-                    chosen = [names[k % len(names)], names[(k + 11) % len(names)]]
+                    chosen = [names[k % len(names)], names[(k + 11) % len(names)], names[(k + 19) % len(names)]]
                     if ei % len(edits) in ((vi + run.seed) % len(edits), (vi + run.seed + 7) % len(edits)) or vkind != "manifest":
                         chosen = names
                 else:
-                    chosen = [names[k % len(names)]]
+                    chosen = [names[k % len(names)], names[(k + 13) % len(names)]]
                     if ei == (vi + run.seed) % len(edits) or exhaustive_edits or vkind == "newdir":
                         chosen = CORE + chosen
                     elif vkind == "chain":
